@@ -50,6 +50,9 @@ type interpreter struct {
 	funcsRun           map[*ssa.Function]int  // yardl functions executed (instruction counts)
 	depth              int
 	inInit             bool
+	boundDepth         int   // verifBounded: absolute call-depth limit of the enclosing bounded call (0 = none)
+	boundSteps         int64 // verifBounded: absolute instruction limit of the enclosing bounded call (0 = none)
+	sched              *sched // nil until the target starts a goroutine / arms a timer / makes a channel
 }
 
 type deferred struct {
@@ -204,7 +207,8 @@ func visitInstr(fr *frame, instr ssa.Instruction) continuation {
 		panic(targetPanic{fr.get(instr.X)})
 
 	case *ssa.Send:
-		panic(engineError{"channel send is outside the sequential executor"})
+		ch, _ := fr.get(instr.Chan).(*schan)
+		fr.i.sch().send(ch, fr.get(instr.X))
 
 	case *ssa.Store:
 		store(mustDeref(instr.Addr.Type()), fr.get(instr.Addr).(*value), fr.get(instr.Val))
@@ -235,10 +239,10 @@ func visitInstr(fr *frame, instr ssa.Instruction) continuation {
 		}
 
 	case *ssa.Go:
-		panic(engineError{"goroutines are outside the sequential executor"})
+		fr.doGo(instr)
 
 	case *ssa.MakeChan:
-		panic(engineError{"channels are outside the sequential executor"})
+		fr.env[instr] = fr.i.sch().makeChan(int(asInt64(fr.i.ex.concInt(fr.get(instr.Size), "channel capacity"))))
 
 	case *ssa.Alloc:
 		var addr *value
@@ -349,7 +353,7 @@ func visitInstr(fr *frame, instr ssa.Instruction) continuation {
 		panic(engineError{"phi outside block entry"})
 
 	case *ssa.Select:
-		panic(engineError{"select is outside the sequential executor"})
+		fr.env[instr] = fr.doSelect(instr)
 
 	default:
 		panic(fmt.Sprintf("unexpected instruction: %T", instr))
@@ -475,6 +479,10 @@ func callSSA(i *interpreter, caller *frame, callpos token.Pos, fn *ssa.Function,
 		panic(engineError{"uninstantiated generic function " + fn.String()})
 	}
 	i.depth++
+	if i.boundDepth > 0 && i.depth > i.boundDepth {
+		i.depth--
+		panic(pathAbort{"bound", "verifBounded: call depth bound reached in " + fn.String()})
+	}
 	if i.depth > i.ex.cfg.MaxDepth {
 		panic(pathAbort{"unwind", "call depth limit reached in " + fn.String()})
 	}
@@ -525,7 +533,7 @@ func runFrame(fr *frame) {
 		}
 		p := recover()
 		switch p.(type) {
-		case engineError, pathAbort:
+		case engineError, pathAbort, threadKilled:
 			panic(p) // engine-level unwinding: target defers do not run
 		}
 		fr.panicking = true
@@ -552,6 +560,9 @@ func runFrame(fr *frame) {
 				}
 			}
 			fr.i.steps++
+			if fr.i.boundSteps > 0 && fr.i.steps > fr.i.boundSteps {
+				panic(pathAbort{"bound", "verifBounded: instruction bound reached in " + fr.fn.String()})
+			}
 			if fr.i.steps > fr.i.ex.cfg.MaxSteps {
 				panic(pathAbort{"unwind", "instruction budget exhausted in " + fr.fn.String()})
 			}
